@@ -32,8 +32,8 @@ def _div_result(a, ctx):
     return SObj("Obs", {"_quotient_of": (a.self, a.y), "reweighted": SBool(z3.Bool(fresh("q.rw"))), "names": A(a.self, "names")})
 
 
-contract(
-    REL + "::Obs.__truediv__", props=[], assumed=True,
+_DIV_STUB = contract(
+    REL + "::Obs.__truediv__", props=[], assumed=True, register=False, name=REL + "::Obs.__truediv__[operands recorded]",
     params=dict(self=Custom(lambda n, c, s: None), y=Custom(lambda n, c, s: None)),
     result=_div_result,
     note="at call sites inside reweight the quotient is kept symbolic (numerator, denominator); its value / fluctuations are C01",
@@ -186,7 +186,7 @@ def _rw_gen(rng, case):
 
 
 contract(
-    REL + "::reweight", props=["C05"],
+    REL + "::reweight", props=["C05"], overrides={REL + "::Obs.__truediv__": _DIV_STUB},
     params=dict(weight=PairSpec(RW_LAYOUTS, 0), obs=PairSpec(RW_LAYOUTS, 1),
                 kwargs=OneOf(all=Custom(lambda n, c, s: CDict({"all_configs": True}), native=lambda v, ev: {"all_configs": True}),
                              own=Custom(lambda n, c, s: CDict(), native=lambda v, ev: {}))),
